@@ -83,6 +83,7 @@ def _appended(lst, item):
 
 FJ = z3.Int("FREE!j")
 FK = z3.Const("FREE!k", V.Key)
+FR = z3.Int("FREE!r")
 
 
 def _dump_seq_clause(c):
@@ -210,10 +211,23 @@ Contract(
             z3.And(_is_descriptor(c), _wellformed_desc(c),
                    z3.Or(z3.Length(Val.s(_desc_name(c))) == 0, resub(Val.s(_desc_name(c))) != Val.s(_desc_name(c)))),
             z3.And(c.raises_exactly(JC.TranslationError), _nothing_loaded(c))), ("C08",)),
+        ("bean_fields_loaded_with_the_same_class_table", lambda c: implies(
+            z3.And(c.returns, _is_descriptor(c), V.is_obj(c.ret), V.Key.is_KS(FK), V.dict_has(c.a.obj, FK),
+                   FK != ks("__jsonclass__")),
+            z3.Select(z3.Select(c.gnew("bean_attrs"), Val.ref(c.ret)), V.Key.ks(FK)) ==
+            jcl(_lenv(c), z3.Select(Val.dget(c.a.obj), FK))), ("C07",)),
+        ("beans_of_the_caller_untouched", lambda c: implies(
+            c.preexisting(FR), z3.Select(c.gnew("bean_attrs"), FR) == z3.Select(c.gold("bean_attrs"), FR)), ("C07",)),
         ("argument_unchanged", lambda c: c.after("obj") == c.a.obj, ("C15",)),
     ],
     modifies=[Ghost("imports"), Ghost("constructs"), Ghost("xlate_log"), Ghost("x_kind"), Ghost("x_val"),
-              Ghost("checked_name")],
+              Ghost("checked_name"), Ghost("bean_attrs")],
+    loops={0: LoopSpec(lambda L: z3.And(
+        z3.Implies(z3.And(z3.Select(L.done, FK), V.Key.is_KS(FK)),
+                   z3.Select(z3.Select(L.ghost("bean_attrs"), Val.ref(L.v("new_obj"))), V.Key.ks(FK)) ==
+                   jcl(eff_classes(L.v("classes")), z3.Select(Val.dget(L.v("obj")), FK))),
+        z3.Implies(FR < L.entry.aptr, z3.Implies(FR != Val.ref(L.v("new_obj")),
+                   z3.Select(L.ghost("bean_attrs"), FR) == z3.Select(L.ghost0("bean_attrs"), FR)))), "fields-set")},
     props=("C15", "C07", "C08"),
 )
 
